@@ -167,7 +167,10 @@ def witness_json(model, r):
             "output_stream": ["Stdout", "Stderr", "Combined"][e2.model_int(model, osc.fields[0].disc)] if b(osc.present) else None,
             "status": status,
             "code": i32(field_of(out, "exit_code").fields[0]) if status == "Code" else None,
-            "has_diff": b(r.ctx.notes["has_diff"])}
+            "has_diff": b(r.ctx.notes["has_diff"]),
+            # every other key of the (fully symbolic) configuration as the witness has it: the verdict must not depend on them
+            "config": {k: v for k, v in __import__("props.c16", fromlist=["tcc_to_json"]).tcc_to_json(field_of(tc, "config"), model).items()
+                       if k in ("detached", "keep_crlf", "strip_ansi_escaping", "skip_document_code")}}
 
 
 def run(pid, tier):
